@@ -76,9 +76,10 @@ def main():
                   "source_commits": [], "add_only": True},
         "engines": [
             {"name": "tlc-model+trace", "path": "engine/", "serves_properties": sorted(CHECKS), "kind_free_text": "TLC model checking of spec/*.tla + TLC trace observer/conformance over traces recorded from the real code on a virtual-time asyncio loop"},
+            {"name": "apalache-inductive", "path": "engine/flow.py", "serves_properties": ["C03", "C04"], "kind_free_text": "Apalache discharges the inductive invariant of spec/FlowAbs.tla for all A, P, N; TLC (TraceFlow.tla) validates recorded traces as FlowAbs behaviours"},
         ],
         "checks": checks,
-        "notes": "fix: commits in /repo are listed in known_findings.json (status fixed). Open known findings: KF-C05-1, KF-C12-1.",
+        "notes": "fix: commits in /repo (10, D1-D10) are listed in known_findings.json (status fixed). Open known findings: KF-C05-1, KF-C12-1. Seeded changes and refactors used to evaluate the checks: seeded/, refactors/ (DESIGN.md section 10).",
         "not_applicable": [{"property_id": k, "reason": v} for k, v in sorted(PENDING.items()) if k not in CHECKS],
     }
     json.dump(man, open(os.path.join(ROOT, "MANIFEST.json"), "w"), indent=1)
